@@ -2,6 +2,7 @@ package main
 
 import (
 	"bytes"
+	"context"
 	"encoding/xml"
 	"fmt"
 	"io"
@@ -9,7 +10,9 @@ import (
 	"net/http"
 	"net/http/httptest"
 	"net/url"
+	"reflect"
 	"strings"
+	"sync"
 
 	"github.com/emersion/go-ical"
 	"github.com/emersion/go-vcard"
@@ -30,10 +33,50 @@ type rawReq struct {
 	// body), "larger" / "smaller" (a ContentLength that disagrees with the bytes),
 	// "nobody" (http.NoBody, ContentLength 0; empty bodies only), "chunked" (sent to a
 	// real httptest.Server with Transfer-Encoding: chunked)
+	// also: "closefail" (reads succeed, Close fails), "dataeof" (the reader returns the
+	// last bytes together with io.EOF), "onebyte" (one byte per Read)
 	delivery string
+	// every header that is present is followed by a second line with another value
+	// (Header.Get returns the first)
+	dup bool
 }
 
-var deliveries = []string{"exact", "unknown", "larger", "smaller", "nobody", "chunked"}
+var deliveries = []string{"exact", "unknown", "larger", "smaller", "nobody", "chunked", "closefail", "dataeof", "onebyte"}
+
+type failCloser struct{ io.Reader }
+
+func (failCloser) Close() error { return fmt.Errorf("close failed") }
+
+// slowReader hands out at most [step] bytes per Read (0 = all that fits) and, when
+// [withEOF], reports io.EOF together with the last bytes.  A zero-length Read reports
+// io.EOF exactly when nothing is left, as the bodies of net/http do.
+type slowReader struct {
+	b       []byte
+	step    int
+	withEOF bool
+}
+
+func (r *slowReader) Read(p []byte) (int, error) {
+	if len(r.b) == 0 {
+		return 0, io.EOF
+	}
+	if len(p) == 0 {
+		return 0, nil
+	}
+	n := len(p)
+	if r.step > 0 && n > r.step {
+		n = r.step
+	}
+	if n > len(r.b) {
+		n = len(r.b)
+	}
+	copy(p, r.b[:n])
+	r.b = r.b[n:]
+	if len(r.b) == 0 && r.withEOF {
+		return n, io.EOF
+	}
+	return n, nil
+}
 
 // ---- the parses the model takes as inputs, computed with the real libraries
 
@@ -184,7 +227,7 @@ func (r *rawReq) sx() string {
 	return hx.L("req", hx.S(r.method), hx.S(r.path), hx.S(r.depth), hx.S(r.overwrite), dest,
 		hx.B(r.ctype != ""), hx.S(media), hx.B(merr != nil), hx.B(len(r.body) == 0), xmls,
 		hx.B(icalOK(r.body)), hx.B(vcardOK(r.body)), hx.L(urls...),
-		hx.L("raw", hx.S(r.ctype), hx.S(r.dest), hx.S(string(r.body)), r.deliveryOr()))
+		hx.L("raw", hx.S(r.ctype), hx.S(r.dest), hx.S(string(r.body)), r.deliveryOr(), hx.B(r.dup)))
 }
 
 func (r *rawReq) deliveryOr() string {
@@ -257,6 +300,9 @@ func parseRawReq(x hx.Sx) *rawReq {
 	if len(raw) > 3 {
 		r.delivery = raw[3].Atom
 	}
+	if len(raw) > 4 {
+		r.dup = raw[4].Bool()
+	}
 	r.normalise()
 	return r
 }
@@ -294,6 +340,19 @@ func (r *rawReq) httpRequest() *http.Request {
 	case "nobody":
 		req.Body = http.NoBody
 		req.ContentLength = 0
+	case "closefail":
+		req.Body = failCloser{bytes.NewReader(r.body)}
+	case "dataeof":
+		req.Body = io.NopCloser(&slowReader{b: append([]byte{}, r.body...), withEOF: true})
+	case "onebyte":
+		req.Body = io.NopCloser(&slowReader{b: append([]byte{}, r.body...), step: 1})
+	}
+	if r.dup {
+		for _, n := range []string{"Depth", "Overwrite", "Destination", "Content-Type"} {
+			if h.Get(n) != "" {
+				h.Add(n, "second-line/value")
+			}
+		}
 	}
 	return req
 }
@@ -336,42 +395,104 @@ func parseKase(x hx.Sx) *kase {
 	return k
 }
 
-// serveWith runs the real handler of the case.
-func (k *kase) serveWith(rec *recorder, w http.ResponseWriter, req *http.Request) {
-	switch k.server {
-	case "dav":
-		h := &webdav.Handler{}
-		if k.fs.has {
-			h.FileSystem = &fsDouble{e: k.fs, rec: rec}
-		}
-		h.ServeHTTP(w, req)
-	case "cal":
-		h := &caldav.Handler{Prefix: k.dav.prefix}
-		if k.dav.has {
-			h.Backend = &calDouble{e: k.dav, rec: rec}
-		}
-		h.ServeHTTP(w, req)
-	case "card":
-		h := &carddav.Handler{Prefix: k.dav.prefix}
-		if k.dav.has {
-			h.Backend = &cardDouble{e: k.dav, rec: rec}
-		}
-		h.ServeHTTP(w, req)
-	default:
-		var opts *webdav.ServePrincipalOptions
-		if !k.nilOpt {
-			opts = &webdav.ServePrincipalOptions{
-				CurrentUserPrincipalPath: "/u/",
-				HomeSets:                 []webdav.BackendSuppliedHomeSet{caldav.NewCalendarHomeSet("/u/cal/"), carddav.NewAddressBookHomeSet("/u/card/")},
-				Capabilities:             []webdav.Capability{caldav.CapabilityCalendar, carddav.CapabilityAddressBook},
-			}
-		}
-		webdav.ServePrincipal(w, req, opts)
+// served is one handler value with its backend double; a case run on its own gets a
+// fresh one, a session shares one over several requests.
+type served struct {
+	server   string
+	dav      *webdav.Handler
+	fsd      *fsDouble
+	cal      *caldav.Handler
+	cald     *calDouble
+	card     *carddav.Handler
+	cardd    *cardDouble
+	opts     *webdav.ServePrincipalOptions
+	optsCopy webdav.ServePrincipalOptions
+	prefix   string
+	backend  interface{}
+}
+
+func newPrincipalOptions() *webdav.ServePrincipalOptions {
+	return &webdav.ServePrincipalOptions{
+		CurrentUserPrincipalPath: "/u/",
+		HomeSets:                 []webdav.BackendSuppliedHomeSet{caldav.NewCalendarHomeSet("/u/cal/"), carddav.NewAddressBookHomeSet("/u/card/")},
+		Capabilities:             []webdav.Capability{caldav.CapabilityCalendar, carddav.CapabilityAddressBook},
 	}
 }
 
-// observe runs the real handler inside recover, on a request built by hand.
-func (k *kase) observe() (obs string) {
+func newServed(k *kase) *served {
+	s := &served{server: k.server}
+	switch k.server {
+	case "dav":
+		s.dav = &webdav.Handler{}
+		if k.fs.has {
+			s.fsd = &fsDouble{e: k.fs, rec: &recorder{}}
+			s.dav.FileSystem = s.fsd
+		}
+	case "cal":
+		s.cal = &caldav.Handler{Prefix: k.dav.prefix}
+		if k.dav.has {
+			s.cald = &calDouble{e: k.dav, rec: &recorder{}}
+			s.cal.Backend = s.cald
+		}
+		s.prefix, s.backend = s.cal.Prefix, s.cal.Backend
+	case "card":
+		s.card = &carddav.Handler{Prefix: k.dav.prefix}
+		if k.dav.has {
+			s.cardd = &cardDouble{e: k.dav, rec: &recorder{}}
+			s.card.Backend = s.cardd
+		}
+		s.prefix, s.backend = s.card.Prefix, s.card.Backend
+	default:
+		if !k.nilOpt {
+			s.opts = newPrincipalOptions()
+			s.optsCopy = *newPrincipalOptions()
+		}
+	}
+	return s
+}
+
+// setEnv makes the (same) backend value answer as the next case says
+func (s *served) setEnv(k *kase) {
+	switch {
+	case s.fsd != nil:
+		s.fsd.e = k.fs
+	case s.cald != nil:
+		s.cald.e = k.dav
+	case s.cardd != nil:
+		s.cardd.e = k.dav
+	}
+}
+
+func (s *served) serve(w http.ResponseWriter, req *http.Request) {
+	switch s.server {
+	case "dav":
+		s.dav.ServeHTTP(w, req)
+	case "cal":
+		s.cal.ServeHTTP(w, req)
+	case "card":
+		s.card.ServeHTTP(w, req)
+	default:
+		webdav.ServePrincipal(w, req, s.opts)
+	}
+}
+
+// modified reports whether the call changed what the caller handed in: the options of
+// ServePrincipal, the configuration of the handler
+func (s *served) modified() bool {
+	switch s.server {
+	case "cal":
+		return s.cal.Prefix != s.prefix || s.cal.Backend != s.backend
+	case "card":
+		return s.card.Prefix != s.prefix || s.card.Backend != s.backend
+	case "principal":
+		return s.opts != nil && !reflect.DeepEqual(*s.opts, s.optsCopy)
+	}
+	return false
+}
+
+// observeOn runs the real handler inside recover, on a request built by hand; the
+// mutating calls of this request are collected through its context.
+func (k *kase) observeOn(s *served) (obs string) {
 	rec := &recorder{}
 	w := httptest.NewRecorder()
 	defer func() {
@@ -379,10 +500,24 @@ func (k *kase) observe() (obs string) {
 			obs = "(panic)"
 		}
 	}()
-	k.serveWith(rec, w, k.req.httpRequest())
+	req := k.req.httpRequest()
+	req = req.WithContext(context.WithValue(context.Background(), recKey{}, rec))
+	s.serve(w, req)
+	if s.modified() {
+		return "(modified-argument)"
+	}
 	items := []string{"resp", fmt.Sprint(w.Code)}
 	items = append(items, rec.calls...)
 	return hx.L(items...)
+}
+
+func (k *kase) observe() (obs string) {
+	defer func() {
+		if r := recover(); r != nil {
+			obs = "(panic)"
+		}
+	}()
+	return k.observeOn(newServed(k))
 }
 
 // wire is one real HTTP server + client: net/http's own request framing (chunked
@@ -431,7 +566,8 @@ func newWire() *wire {
 				w.panic = true
 			}
 		}()
-		k.serveWith(w.rec, &statusWriter{rw, w}, r)
+		r = r.WithContext(context.WithValue(r.Context(), recKey{}, w.rec))
+		newServed(k).serve(&statusWriter{rw, w}, r)
 	}))
 	w.client = &http.Client{CheckRedirect: func(*http.Request, []*http.Request) error { return http.ErrUseLastResponse }}
 	return w
@@ -450,6 +586,9 @@ func (w *wire) observe(k *kase) string {
 	for n, v := range map[string]string{"Depth": q.depth, "Overwrite": q.overwrite, "Destination": q.dest, "Content-Type": q.ctype} {
 		if v != "" {
 			req.Header.Set(n, v)
+			if q.dup {
+				req.Header.Add(n, "second-line/value")
+			}
 		}
 	}
 	resp, err := w.client.Do(req)
@@ -474,9 +613,60 @@ func (w *wire) observe(k *kase) string {
 	return hx.L(items...)
 }
 
-func (k *kase) line(w *wire) string {
+// line computes the case line; nothing the harness calls can kill it
+func (k *kase) line(w *wire) (out string) {
+	defer func() {
+		if r := recover(); r != nil {
+			out = "(harness-panic " + hx.S(fmt.Sprint(r)) + ") (panic)"
+		}
+	}()
 	if k.req.delivery == "chunked" {
 		return k.sx() + " " + w.observe(k)
 	}
 	return k.sx() + " " + k.observe()
+}
+
+// a job is one case, or a session: several cases served by ONE handler value and ONE
+// backend value, one after the other or (overlap) at the same time
+type job struct {
+	steps   []*kase
+	overlap bool
+}
+
+func (j *job) lines(w *wire) []string {
+	if len(j.steps) == 1 && !j.overlap {
+		return []string{j.steps[0].line(w)}
+	}
+	out := make([]string, len(j.steps))
+	var s *served
+	func() {
+		defer func() { recover() }()
+		s = newServed(j.steps[0])
+	}()
+	if s == nil {
+		return nil
+	}
+	step := func(i int) {
+		defer func() {
+			if r := recover(); r != nil {
+				out[i] = "(harness-panic " + hx.S(fmt.Sprint(r)) + ") (panic)"
+			}
+		}()
+		k := j.steps[i]
+		out[i] = k.sx() + " " + k.observeOn(s)
+	}
+	if j.overlap {
+		var wg sync.WaitGroup
+		for i := range j.steps {
+			wg.Add(1)
+			go func(i int) { defer wg.Done(); step(i) }(i)
+		}
+		wg.Wait()
+		return out
+	}
+	for i := range j.steps {
+		s.setEnv(j.steps[i])
+		step(i)
+	}
+	return out
 }
